@@ -212,7 +212,8 @@ def work_range(job):
 ERRS = ('#NUM!', '#VALUE!', '#N/A', '#DIV/0!', '#REF!', '#NAME?', '#NULL!')
 BAD_SERIALS = [-1e300, -1e10, -1, -0.5, -1e-9, C.MAX_SERIAL + 1, C.MAX_SERIAL + 1.5, C.MAX_SERIAL + 2, 1e7, 1e10, 1e12, 1e300]
 BAD_SHIFTS = [-1e300, -1e10, -10 ** 6, 10 ** 6, 1e10, 1e300]
-ODD_TYPES = ['45000', '1', 'abc', '', ' ', True, False, None, '#N/A', '#DIV/0!', '12:00', '1900-01-01']
+ODD_TYPES = ['45000', '1', 'abc', '', ' ', True, False, None, '#N/A', '#DIV/0!', '12:00', '1900-01-01',
+             'nan', 'inf', '-inf', 'Infinity', '1e400', '1:', ':', ':00', '1::00', '1:00:', '0:0:', '25:00', '1:60', '12:30 PM', '1:00PM']
 FUNCS = [('YEAR', [45000]), ('MONTH', [45000]), ('DAY', [45000]), ('WEEKDAY', [45000]), ('HOUR', [0.5]), ('MINUTE', [0.5]),
          ('SECOND', [0.5]), ('EDATE', [45000, 1]), ('EOMONTH', [45000, 1]), ('DATE', [2000, 1, 1]), ('YEARFRAC', [45000, 45100, 0])]
 
@@ -235,7 +236,7 @@ def work_offgrid(job):
     for fn, base in FUNCS:
         for pos in range(len(base)):
             if fn in ('HOUR', 'MINUTE', 'SECOND'):
-                pool = [(v, '#NUM!' if v < 0 else None) for v in BAD_SERIALS]
+                pool = [(v, '#NUM!') for v in BAD_SERIALS]          # before 1900-01-00 or past 9999-12-31
             elif fn == 'DATE':
                 pool = [(v, '#NUM!') for v in ([-1, -0.5, 10000, 10400, 1e10, 1e300, -1e300] if pos == 0 else
                                                ([-10 ** 6, 10 ** 6, 99999 * 12, -2000 * 12] if pos == 1 else [-10 ** 6, 10 ** 7]) + [-1e10, 1e10, -1e300, 1e300])]
@@ -261,6 +262,18 @@ def work_offgrid(job):
                                   f'{f} with {env} = {o[1]!r}; the argument is outside the calendar, expected #NUM!')
                 elif want is None and isinstance(o[1], (int, float)) and not (0 <= o[1] <= 59):
                     acc.violation(dict(case, verdict='part-out-of-range', observed=jsonable(o[1])), f'{f} with {env} = {o[1]!r}')
+    for y in (1900, 0, 2024, 1):
+        for m in range(-12 * (y if y >= 1900 else y + 1900) - 14, -12 * (y if y >= 1900 else y + 1900) + 14):
+            for d in (1, 15, 29, -400):
+                f, env, o = call('DATE', [y, m, d])
+                case = dict(kind='offgrid', fn='DATE', pos=1, arg=m, atype='int', year=y, day=d)
+                if o[0] != 'ok':
+                    acc.violation(dict(case, verdict='raised', exc=o[1]), f'=DATE({y},{m},{d}) raised {o[1]}: {o[2][-100:]}')
+                    continue
+                yy = (y if y >= 1900 else y + 1900) + (m - 1) // 12
+                if yy < 1899 and o[1] != '#NUM!':
+                    acc.violation(dict(case, verdict='not-num-error', observed=jsonable(o[1])),
+                                  f'=DATE({y},{m},{d}) = {o[1]!r}; month {m} carries the year to {yy}, expected #NUM!')
     # a time of day on top of the date: the date parts are those of the day
     for n in [0, 1, 58, 59, 60, 61, 365, 366, 367, 45000, 73050, C.MAX_SERIAL - 1, C.MAX_SERIAL]:
         for fr in (0.25, 0.5, 0.999):
